@@ -164,6 +164,8 @@ type gen struct {
 	// approximate view of what exists (to bias towards interesting ops)
 	have       map[Key]bool
 	usedZeroID bool
+	// prev: earlier ADD/REPLACE operations, for re-sends of the same or a reduced payload
+	prev []*spb.AFTOperation
 }
 
 var aftTypeNums = []int{1, 2, 3, 4, 5, 6}
@@ -379,9 +381,76 @@ func (g *gen) weighted(ws ...int) int {
 }
 
 func (g *gen) randomOp() *spb.AFTOperation {
+	if len(g.prev) > 0 && g.chance(1, 7) {
+		// re-send an earlier ADD/REPLACE: identical, or with some optional leaves removed
+		// (a client refreshing its state; the new payload is a subset of the installed one)
+		o := proto.Clone(g.prev[g.pick(len(g.prev))]).(*spb.AFTOperation)
+		o.Id = g.id()
+		if g.chance(2, 3) {
+			g.dropLeaves(o)
+		}
+		if g.chance(1, 4) {
+			o.Op = spb.AFTOperation_REPLACE
+		}
+		return o
+	}
 	op := []spb.AFTOperation_Operation{spb.AFTOperation_ADD, spb.AFTOperation_REPLACE, spb.AFTOperation_DELETE}[g.weighted(g.wAdd, g.wRepl, g.wDel)]
 	kind := Kind(g.weighted(g.wKind[:]...))
-	return g.entry(op, kind, g.ni())
+	o := g.entry(op, kind, g.ni())
+	if op != spb.AFTOperation_DELETE && len(g.prev) < 64 {
+		g.prev = append(g.prev, proto.Clone(o).(*spb.AFTOperation))
+	}
+	return o
+}
+
+// dropLeaves removes a random selection of optional payload leaves.
+func (g *gen) dropLeaves(o *spb.AFTOperation) {
+	switch t := o.Entry.(type) {
+	case *spb.AFTOperation_NextHop:
+		if nh := t.NextHop.NextHop; nh != nil {
+			if g.chance(1, 2) {
+				nh.MacAddress = nil
+			}
+			if g.chance(1, 2) {
+				nh.InterfaceRef = nil
+			}
+			if g.chance(1, 2) {
+				nh.IpInIp = nil
+			}
+			if g.chance(1, 2) {
+				nh.PushedMplsLabelStack = nil
+			}
+			if g.chance(1, 2) {
+				nh.EncapsulateHeader, nh.DecapsulateHeader = 0, 0
+			}
+			if g.chance(1, 2) {
+				nh.NetworkInstance = nil
+			}
+			if g.chance(1, 3) {
+				nh.PopTopLabel, nh.EncapHeader = nil, nil
+			}
+		}
+	case *spb.AFTOperation_NextHopGroup:
+		if grp := t.NextHopGroup.NextHopGroup; grp != nil {
+			grp.BackupNextHopGroup = nil
+			if len(grp.NextHop) > 1 && g.chance(1, 2) {
+				grp.NextHop = grp.NextHop[:len(grp.NextHop)-1]
+			}
+		}
+	case *spb.AFTOperation_Ipv4:
+		if t.Ipv4.Ipv4Entry != nil {
+			t.Ipv4.Ipv4Entry.EntryMetadata = nil
+		}
+	case *spb.AFTOperation_Ipv6:
+		if t.Ipv6.Ipv6Entry != nil {
+			t.Ipv6.Ipv6Entry.EntryMetadata = nil
+		}
+	case *spb.AFTOperation_Mpls:
+		if t.Mpls.LabelEntry != nil {
+			t.Mpls.LabelEntry.EntryMetadata = nil
+			t.Mpls.LabelEntry.PoppedMplsLabelStack = nil
+		}
+	}
 }
 
 // chain emits the operations of one dependency chain NH <- NHG <- entry in a random order.
